@@ -88,6 +88,15 @@ def bad_format_block(t):
     return blk
 
 
+def degenerate_bad_format_block(t):
+    """the unsupported-format cause on a block WITHOUT items: some writers only look at the format when they meet an item, so this one
+    may be stored (nothing is asserted then) - but if the call raises, it has to be a clean refusal"""
+    blk = bad_format_block(t)
+    empty = specs.build(container_min(t))
+    empty.format = blk.format
+    return empty
+
+
 def look_alike(name):
     """a user-defined Block subclass that is NOT the library's class for its type but carries everything the container asks of a
     block (type tag, format, dates, nBytes, _write). Whether the container accepts it is its own business - but if it refuses,
@@ -361,6 +370,55 @@ class Interp(container.ContainerInterp):
                     self.refused_on_copy("look-alike-block-object", "setter", lambda w: setattr(w, container.SETTERS[name], look_alike(name)))
             for name in (absent[:1] if free else []):
                 self.refused_on_copy("look-alike-block-object", "add_block", lambda w: w.add_block(look_alike(name)))
+            for name in ("data3D", "emg", "force3D", "platData"):
+                present = reftdf.TYPE_CODE[name] in live_codes
+                if present:
+                    self.refused_on_copy("unsupported-format-without-items", "replace_block", lambda w: w.replace_block(degenerate_bad_format_block(name)))
+                    if name in container.SETTERS:
+                        self.refused_on_copy("unsupported-format-without-items", "setter", lambda w: setattr(w, container.SETTERS[name], degenerate_bad_format_block(name)))
+                elif free:
+                    self.refused_on_copy("unsupported-format-without-items", "add_block", lambda w: w.add_block(degenerate_bad_format_block(name)))
+                    if name in container.SETTERS:
+                        self.refused_on_copy("unsupported-format-without-items", "setter", lambda w: setattr(w, container.SETTERS[name], degenerate_bad_format_block(name)))
+            # 11. a write session in which every call was refused: closing it leaves the file as it was when the session began
+            self.session_of_refusals(seed)
+
+    def session_of_refusals(self, seed):
+        import shutil
+
+        from basictdf import Tdf
+        from basictdf.tdfBlock import BlockType
+
+        cp = os.path.join(self.dir, "scratch-session.tdf")
+        shutil.copyfile(self.path, cp)
+        before = open(cp, "rb").read()
+        live_codes = self.live_types()
+        t2 = Tdf(cp)
+        calls = 0
+        t2.allow_write()
+        t2.__enter__()
+        try:
+            attempts = [lambda: t2.add_block(None), lambda: t2.replace_block("block"), lambda: t2.remove_block(BlockType(next(c for c in range(1, 17) if c not in live_codes)))]
+            for name in [reftdf.CODE_TYPE[c] for c in live_codes if c in reftdf.CODE_TYPE][:2]:
+                attempts.append(lambda name=name: t2.add_block(specs.build(container_min(name))))   # duplicate type
+            for k in range(1 + seed % len(attempts)):
+                try:
+                    attempts[(seed + k) % len(attempts)]()
+                except Exception:  # noqa
+                    calls += 1
+        finally:
+            if seed % 3 == 0:
+                t2.__exit__(KeyError, KeyError("caller"), None)
+            else:
+                t2.__exit__(None, None, None)
+        after = open(cp, "rb").read()
+        os.unlink(cp)
+        self.ctx.evaluations += 1
+        self.ctx.hist["cell:session-of-refusals|close|" + self.state_class()] += 1
+        if calls and after != before:
+            k = next((i for i in range(min(len(before), len(after))) if before[i] != after[i]), min(len(before), len(after)))
+            self.ctx.fail("session-of-refusals/file-changed-at-close", f"a write session in which all {calls} calls were refused changed the file when it was closed "
+                                                                       f"(first difference at byte {k}, {'header' if k < 64 else 'table / data'}); state {self.state_class()}")
 
     def refused_on_copy(self, cause, path, fn):
         import shutil
